@@ -22,6 +22,9 @@ Section Proofs.
   Notation create := (create addr_eqb sess_new sess_input).
   Notation feed := (feed addr_eqb sess_input).
   Notation close_at := (close_at addr_eqb).
+  Notation reset_close := (reset_close addr_eqb).
+  Notation l_close_begin := (l_close_begin addr_eqb).
+  Notation l_close_end := (l_close_end addr_eqb).
   Notation wants_session := (wants_session addr_eqb sess_conv gate_ok).
   Notation creation_event := (creation_event addr_eqb sess_conv gate_ok).
   Notation step := (step addr_eqb sess_new sess_input sess_conv gate_ok).
@@ -65,26 +68,32 @@ Section Proofs.
     intros [t q n c] a H. unfold Listener.close_at. simpl in *. rewrite remove_absent; auto.
   Qed.
 
+  (* s.Close() of whatever lives under a, as called by packetInput *)
+  Definition reset_at (l : listener) (a : addr) : listener :=
+    match lookup a (sessions l) with
+    | Some e => reset_close l a e
+    | None => l
+    end.
+
   Lemma packet_input_spec : forall (l : listener) raw a,
       l_packet_input l raw a =
       match wants_session l raw a with
-      | Some (conv, data) => create (close_at l a) conv data a
+      | Some (conv, data) => create (reset_at l a) conv data a
       | None => match fed_to l raw a with
                 | Some (e, data) => feed l a e data
                 | None => l
                 end
       end.
   Proof.
-    intros l raw a. unfold Listener.l_packet_input, Listener.wants_session, fed_to, for_conv.
+    intros l raw a. unfold Listener.l_packet_input, Listener.wants_session, fed_to, for_conv, reset_at.
     destruct (gate_ok raw) as [data|]; auto.
     destruct (too_short data); auto.
     destruct (parse_conv data) as [| |conv sn].
     - destruct (lookup a (sessions l)); auto.
     - destruct (lookup a (sessions l)); auto.
-    - destruct (lookup a (sessions l)) as [e|] eqn:E.
-      + destruct (conv =? sess_conv (e_sess e)); simpl; auto.
-        destruct (sn =? 0); simpl; auto.
-      + rewrite close_at_absent; auto.
+    - destruct (lookup a (sessions l)) as [e|] eqn:E; auto.
+      destruct (conv =? sess_conv (e_sess e)); simpl; auto.
+      destruct (sn =? 0); simpl; auto.
   Qed.
 
   Lemma wants_fed_exclusive : forall (l : listener) raw a p,
@@ -98,24 +107,51 @@ Section Proofs.
     destruct (conv =? sess_conv (e_sess e)); simpl; auto. discriminate.
   Qed.
 
-  Lemma backlog_full_close_at : forall (l : listener) a, backlog_full (close_at l a) = backlog_full l.
-  Proof. reflexivity. Qed.
+  Lemma backlog_full_reset_at : forall (l : listener) a, backlog_full (reset_at l a) = backlog_full l.
+  Proof.
+    intros. unfold reset_at, Listener.reset_close. destruct (lookup a (sessions l)); auto.
+    destruct (e_dead e); auto.
+  Qed.
+
+  Lemma reset_at_fields : forall (l : listener) a,
+      accepts (reset_at l a) = accepts l /\ next_id (reset_at l a) = next_id l /\
+      closed (reset_at l a) = closed l /\ pending (reset_at l a) = pending l.
+  Proof.
+    intros. unfold reset_at, Listener.reset_close. destruct (lookup a (sessions l)); auto.
+    destruct (e_dead e); auto.
+  Qed.
+
+  Lemma reset_at_sessions : forall (l : listener) a,
+      sessions (reset_at l a) = sessions l \/
+      sessions (reset_at l a) = remove_key addr_eqb a (sessions l).
+  Proof.
+    intros. unfold reset_at, Listener.reset_close. destruct (lookup a (sessions l)); auto.
+    destruct (e_dead e); auto.
+  Qed.
 
   (* ---------------------------------------------------------------------------------- *)
   (* Frame.                                                                              *)
 
-  Lemma others_close_at : forall (l : listener) a, others a (sessions (close_at l a)) = others a (sessions l).
-  Proof. intros. simpl. apply others_remove. Qed.
+  Lemma others_reset_at : forall (l : listener) a, others a (sessions (reset_at l a)) = others a (sessions l).
+  Proof.
+    intros. destruct (reset_at_sessions l a) as [H|H]; rewrite H; auto. apply others_remove.
+  Qed.
+
+  Lemma sessions_create : forall (l : listener) conv data a,
+      backlog_full l = false ->
+      sessions (create l conv data a) =
+      set_key addr_eqb a (mkE (next_id l) false (sess_input (sess_new conv a) data)) (sessions l).
+  Proof. intros. unfold Listener.create. rewrite H. auto. Qed.
 
   Lemma frame_others : forall (l : listener) raw a,
       others a (sessions (l_packet_input l raw a)) = others a (sessions l).
   Proof.
     intros. rewrite packet_input_spec.
     destruct (wants_session l raw a) as [[conv data]|].
-    - unfold Listener.create. rewrite backlog_full_close_at.
-      destruct (backlog_full l); simpl.
-      + apply others_remove.
-      + rewrite (others_set addr_eqb addr_eqb_spec). apply others_remove.
+    - destruct (backlog_full l) eqn:Hb.
+      + unfold Listener.create. rewrite backlog_full_reset_at, Hb. apply others_reset_at.
+      + rewrite sessions_create by (rewrite backlog_full_reset_at; auto).
+        rewrite (others_set addr_eqb addr_eqb_spec). apply others_reset_at.
     - destruct (fed_to l raw a) as [[e data]|]; auto. simpl. apply others_replace.
   Qed.
 
@@ -125,11 +161,13 @@ Section Proofs.
     intros. eapply (others_lookup addr_eqb addr_eqb_spec); eauto. apply frame_others.
   Qed.
 
-  Lemma frame_closed : forall (l : listener) raw a, closed (l_packet_input l raw a) = closed l.
+  Lemma frame_closed : forall (l : listener) raw a,
+      closed (l_packet_input l raw a) = closed l /\ pending (l_packet_input l raw a) = pending l.
   Proof.
     intros. rewrite packet_input_spec.
     destruct (wants_session l raw a) as [[conv data]|].
-    - unfold Listener.create. rewrite backlog_full_close_at. destruct (backlog_full l); auto.
+    - unfold Listener.create. destruct (reset_at_fields l a) as [_ [_ [H1 H2]]].
+      destruct (backlog_full (reset_at l a)); auto.
     - destruct (fed_to l raw a) as [[e data]|]; auto.
   Qed.
 
@@ -141,8 +179,9 @@ Section Proofs.
   Proof.
     intros. rewrite packet_input_spec. unfold Listener.creation_event.
     destruct (wants_session l raw a) as [[conv data]|].
-    - unfold Listener.create. rewrite backlog_full_close_at.
-      destruct (backlog_full l); simpl; rewrite ?app_nil_r; split; auto; lia.
+    - unfold Listener.create. rewrite backlog_full_reset_at.
+      destruct (reset_at_fields l a) as [H1 [H2 _]].
+      destruct (backlog_full l); simpl; rewrite ?app_nil_r, ?H1, ?H2; split; auto; lia.
     - destruct (fed_to l raw a) as [[e data]|]; simpl; rewrite app_nil_r; split; auto; lia.
   Qed.
 
@@ -150,10 +189,11 @@ Section Proofs.
   Lemma creation_installs : forall (l : listener) raw a conv data,
       wants_session l raw a = Some (conv, data) -> backlog_full l = false ->
       lookup a (sessions (l_packet_input l raw a)) =
-      Some (mkE (next_id l) (sess_input (sess_new conv a) data)).
+      Some (mkE (next_id l) false (sess_input (sess_new conv a) data)).
   Proof.
     intros l raw a conv data H Hb. rewrite packet_input_spec, H.
-    unfold Listener.create. rewrite backlog_full_close_at, Hb. simpl.
+    rewrite sessions_create by (rewrite backlog_full_reset_at; auto).
+    destruct (reset_at_fields l a) as [_ [H2 _]]. rewrite H2.
     apply (lookup_set_same addr_eqb addr_eqb_spec).
   Qed.
 
@@ -161,14 +201,15 @@ Section Proofs.
       let l' := l_packet_input l raw a in
       others a (sessions l') = others a (sessions l) /\
       (forall b, b <> a -> lookup b (sessions l') = lookup b (sessions l)) /\
-      closed l' = closed l /\
+      closed l' = closed l /\ pending l' = pending l /\
       ((accepts l' = accepts l /\ next_id l' = next_id l) \/
        (exists conv data,
            accepts l' = accepts l ++ [(a, next_id l)] /\ next_id l' = next_id l + 1 /\
-           lookup a (sessions l') = Some (mkE (next_id l) (sess_input (sess_new conv a) data)))).
+           lookup a (sessions l') = Some (mkE (next_id l) false (sess_input (sess_new conv a) data)))).
   Proof.
     intros l raw a l'. subst l'. split; [apply frame_others|].
-    split; [intros; apply frame_lookup; auto|]. split; [apply frame_closed|].
+    split; [intros; apply frame_lookup; auto|].
+    destruct (frame_closed l raw a) as [Hc Hp]. split; auto. split; auto.
     destruct (step_accepts l raw a) as [Ha Hn].
     destruct (creation_event l raw a) eqn:E.
     - right. unfold Listener.creation_event in E.
@@ -232,25 +273,47 @@ Section Proofs.
     - intros b i c e Hq Ht. apply H8; auto.
   Qed.
 
-  Lemma inv_feed : forall (l : listener) a e data,
-      inv l -> lookup a (sessions l) = Some e -> inv (feed l a e data).
+  Lemma inv_reset_at : forall (l : listener) a, inv l -> inv (reset_at l a).
   Proof.
-    intros l a e data [H1 H2 H3 H4 H5 H6 H7 H8] He.
+    intros l a Hi. unfold reset_at, Listener.reset_close.
+    destruct (lookup a (sessions l)); auto. destruct (e_dead e); auto. apply inv_close_at. auto.
+  Qed.
+
+  (* replacing the object under a by one with the same identity *)
+  Lemma tids_replace : forall a (e e' : entry) (t : list (addr * entry)),
+      lookup a t = Some e -> e_id e' = e_id e ->
+      map (fun x => e_id (snd x)) (replace_key addr_eqb a e' t) = map (fun x => e_id (snd x)) t.
+  Proof.
+    induction t as [|[k v] r IH]; simpl; intros He Hid; auto.
+    destruct (addr_eqb a k) eqn:E; simpl.
+    - inversion He; subst. rewrite Hid. auto.
+    - rewrite IH; auto.
+  Qed.
+
+  Lemma inv_replace : forall (l : listener) a e e' p,
+      inv l -> lookup a (sessions l) = Some e -> e_id e' = e_id e ->
+      inv (mkL (replace_key addr_eqb a e' (sessions l)) (accepts l) (next_id l) (closed l) p).
+  Proof.
+    intros l a e e' p [H1 H2 H3 H4 H5 H6 H7 H8] He Hid.
     assert (Hin : In (a, e) (sessions l)) by (apply (lookup_In addr_eqb addr_eqb_spec); auto).
-    assert (Htid : tids (feed l a e data) = tids l).
-    { unfold tids. simpl. clear - He addr_eqb_spec.
-      induction (sessions l) as [|[k v] r IH]; simpl in *; auto.
-      destruct (addr_eqb a k) eqn:E; simpl.
-      - inversion He; subst. auto.
-      - rewrite IH; auto. }
+    assert (Htid : tids (mkL (replace_key addr_eqb a e' (sessions l)) (accepts l) (next_id l) (closed l) p) = tids l).
+    { unfold tids. simpl. eapply tids_replace; eauto. }
     constructor; simpl; auto.
     - rewrite map_fst_replace. auto.
     - rewrite Htid. auto.
     - rewrite Htid. auto.
-    - intros b i c e' Hq Ht Hid. apply (In_replace addr_eqb addr_eqb_spec) in Ht. destruct Ht as [Ht|Ht].
+    - intros b i c x Hq Ht Hx. apply (In_replace addr_eqb addr_eqb_spec) in Ht. destruct Ht as [Ht|Ht].
       + eapply H8; eauto.
-      + inversion Ht; subst. simpl. eapply H8; eauto.
+      + inversion Ht; subst. eapply H8; eauto.
   Qed.
+
+  Lemma inv_feed : forall (l : listener) a e data,
+      inv l -> lookup a (sessions l) = Some e -> inv (feed l a e data).
+  Proof. intros. unfold Listener.feed. eapply inv_replace; eauto. Qed.
+
+  Lemma inv_set_pending : forall (l : listener) p,
+      inv l -> inv (mkL (sessions l) (accepts l) (next_id l) (closed l) p).
+  Proof. intros l p [H1 H2 H3 H4 H5 H6 H7 H8]. constructor; auto. Qed.
 
   Lemma inv_create : forall (l : listener) conv data a, inv l -> inv (create l conv data a).
   Proof.
@@ -260,7 +323,8 @@ Section Proofs.
     unfold Listener.backlog_full in Hb. apply Z.leb_gt in Hb.
     assert (Hnew_t : ~ In (next_id l) (tids l)) by (intro H; apply H4 in H; lia).
     assert (Hnew_q : ~ In (next_id l) (qids l)) by (intro H; apply H5 in H; lia).
-    assert (Htids : forall i, In i (tids (mkL (set_key addr_eqb a (mkE (next_id l) (sess_input (sess_new conv a) data)) (sessions l)) (accepts l ++ [(a, next_id l)]) (next_id l + 1) (closed l))) -> In i (tids l) \/ i = next_id l).
+    set (ne := mkE (next_id l) false (sess_input (sess_new conv a) data)).
+    assert (Htids : forall i, In i (tids (mkL (set_key addr_eqb a ne (sessions l)) (accepts l ++ [(a, next_id l)]) (next_id l + 1) (closed l) (pending l))) -> In i (tids l) \/ i = next_id l).
     { intros i Hi. apply In_tids in Hi. destruct Hi as [b [e [Hi1 Hi2]]]. simpl in Hi1.
       apply (In_set addr_eqb addr_eqb_spec) in Hi1. destruct Hi1 as [[Hi1 _]|Hi1].
       - left. apply In_tids. exists b, e. auto.
@@ -287,16 +351,22 @@ Section Proofs.
       + inversion Hq; inversion Ht; subst. auto.
   Qed.
 
+  Lemma fed_to_lookup : forall (l : listener) raw a e data,
+      fed_to l raw a = Some (e, data) -> lookup a (sessions l) = Some e.
+  Proof.
+    intros l raw a e data. unfold fed_to.
+    destruct (gate_ok raw); try discriminate. destruct (too_short b); try discriminate.
+    destruct (lookup a (sessions l)) as [e'|]; try discriminate.
+    destruct (for_conv (sess_conv (e_sess e')) b); intro H; inversion H; subst; auto.
+  Qed.
+
   Lemma inv_packet_input : forall (l : listener) raw a, inv l -> inv (l_packet_input l raw a).
   Proof.
     intros l raw a Hi. rewrite packet_input_spec.
     destruct (wants_session l raw a) as [[conv data]|].
-    - apply inv_create. apply inv_close_at. auto.
+    - apply inv_create. apply inv_reset_at. auto.
     - destruct (fed_to l raw a) as [[e data]|] eqn:F; auto.
-      apply inv_feed; auto. unfold fed_to in F.
-      destruct (gate_ok raw); try discriminate. destruct (too_short b); try discriminate.
-      destruct (lookup a (sessions l)) as [e'|]; try discriminate.
-      destruct (for_conv (sess_conv (e_sess e')) b); inversion F; subst; auto.
+      apply inv_feed; auto. eapply fed_to_lookup; eauto.
   Qed.
 
   Lemma inv_accept : forall (l : listener), inv l -> inv (snd (l_accept l)).
@@ -310,18 +380,46 @@ Section Proofs.
       + intros. eapply H8; eauto.
   Qed.
 
-  Lemma inv_close_session : forall (l : listener) id, inv l -> inv (l_close_session l id).
+  Lemma key_of_id_lookup : forall id (t : list (addr * entry)) a e,
+      NoDup (map fst t) -> key_of_id id t = Some (a, e) -> lookup a t = Some e /\ e_id e = id.
   Proof.
-    intros l id Hi. unfold Listener.l_close_session.
-    destruct (key_of_id id (sessions l)); auto. apply inv_close_at. auto.
+    induction t as [|[k v] r IH]; simpl; intros a e Hnd H; try discriminate.
+    inversion Hnd; subst.
+    destruct (e_id v =? id) eqn:E.
+    - inversion H; subst. rewrite eqb_refl. apply Z.eqb_eq in E. auto.
+    - destruct (IH a e H3 H) as [Hl Hid]. split; auto.
+      destruct (addr_eqb a k) eqn:Ea; auto.
+      apply addr_eqb_spec in Ea. subst. exfalso. apply H2.
+      apply (lookup_In addr_eqb addr_eqb_spec) in Hl. apply in_map_iff. exists (k, e). auto.
+  Qed.
+
+  Lemma inv_close_begin : forall (l : listener) id, inv l -> inv (l_close_begin l id).
+  Proof.
+    intros l id Hi. unfold Listener.l_close_begin.
+    destruct (key_of_id id (sessions l)) as [[a e]|] eqn:K; auto.
+    destruct (e_dead e); auto.
+    apply key_of_id_lookup in K; [|apply (inv_keys l Hi)]. destruct K as [Hl _].
+    eapply inv_replace; eauto.
+  Qed.
+
+  Lemma inv_close_end : forall (l : listener) id, inv l -> inv (l_close_end l id).
+  Proof.
+    intros l id Hi. unfold Listener.l_close_end.
+    destruct (pending_addr id (pending l)) as [a|]; auto.
+    destruct (lookup a (sessions l)) as [e|].
+    - destruct (e_id e =? id).
+      + apply (inv_set_pending (close_at l a)). apply inv_close_at. auto.
+      + apply (inv_set_pending l). auto.
+    - apply (inv_set_pending l). auto.
   Qed.
 
   Lemma inv_step : forall (l : listener) ev, inv l -> inv (step l ev).
   Proof.
-    intros l [raw a| |id|] Hi; simpl.
+    intros l [raw a| |id|id|] Hi; simpl.
     - apply inv_packet_input; auto.
     - apply inv_accept; auto.
-    - apply inv_close_session; auto.
+    - apply inv_close_begin; auto.
+    - apply inv_close_end; auto.
     - destruct Hi. constructor; auto.
   Qed.
 
@@ -351,11 +449,14 @@ Section Proofs.
   Proof.
     induction evs as [|ev r IH]; intros l a; simpl; auto.
     rewrite count_at_app, IH. f_equal.
-    destruct ev as [raw b| | |]; auto.
+    destruct ev as [raw b| | | |]; auto.
     rewrite new_accepts_spec. destruct (creation_event l raw b); simpl.
     - unfold Listener.count_at. simpl. destruct (addr_eqb b a); auto.
     - rewrite andb_false_r. auto.
   Qed.
+
+  Lemma reset_at_absent : forall (l : listener) a, lookup a (sessions l) = None -> reset_at l a = l.
+  Proof. intros. unfold reset_at. rewrite H. auto. Qed.
 
   (* a new peer's datagram when the backlog is full changes nothing at all *)
   Theorem full_backlog_no_state : forall (l : listener) raw a,
@@ -363,7 +464,7 @@ Section Proofs.
   Proof.
     intros l raw a Hn Hb. rewrite packet_input_spec.
     destruct (wants_session l raw a) as [[conv data]|].
-    - unfold Listener.create. rewrite backlog_full_close_at, Hb. apply close_at_absent; auto.
+    - rewrite reset_at_absent by auto. unfold Listener.create. rewrite Hb. auto.
     - unfold fed_to. destruct (gate_ok raw); auto. destruct (too_short b); auto. rewrite Hn. auto.
   Qed.
 
@@ -374,8 +475,8 @@ Section Proofs.
   Proof.
     intros l raw a Hn Hc. rewrite packet_input_spec. unfold Listener.creation_event in Hc.
     destruct (wants_session l raw a) as [[conv data]|].
-    - unfold Listener.create. rewrite backlog_full_close_at.
-      destruct (backlog_full l); try discriminate. apply close_at_absent; auto.
+    - rewrite reset_at_absent by auto. unfold Listener.create.
+      destruct (backlog_full l); try discriminate. auto.
     - unfold fed_to. destruct (gate_ok raw); auto. destruct (too_short b); auto. rewrite Hn. auto.
   Qed.
 
@@ -385,10 +486,13 @@ Section Proofs.
        | _ => []
        end) ++ accepts (step l ev) = accepts l ++ new_accepts l ev.
   Proof.
-    intros l [raw a| |id|].
+    intros l [raw a| |id|id|].
     - rewrite new_accepts_spec. destruct (step_accepts l raw a) as [H _]. simpl. exact H.
-    - destruct l as [t q n c]. unfold l_accept. simpl. destruct q; simpl; rewrite ?app_nil_r; auto.
-    - simpl. rewrite app_nil_r. unfold Listener.l_close_session. destruct (key_of_id id (sessions l)); auto.
+    - destruct l as [t q n c p]. unfold l_accept. simpl. destruct q; simpl; rewrite ?app_nil_r; auto.
+    - simpl. rewrite app_nil_r. unfold Listener.l_close_begin.
+      destruct (key_of_id id (sessions l)) as [[a e]|]; auto. destruct (e_dead e); auto.
+    - simpl. rewrite app_nil_r. unfold Listener.l_close_end.
+      destruct (pending_addr id (pending l)); auto.
     - simpl. rewrite app_nil_r. auto.
   Qed.
 
@@ -404,16 +508,18 @@ Section Proofs.
 
   Lemma next_id_step_mono : forall (l : listener) ev, next_id l <= next_id (step l ev).
   Proof.
-    intros l [raw a| |id|]; simpl; try lia.
+    intros l [raw a| |id|id|]; simpl; try lia.
     - destruct (step_accepts l raw a) as [_ H]. rewrite H. destruct (creation_event l raw a); lia.
     - unfold l_accept. destruct (accepts l); simpl; lia.
-    - unfold Listener.l_close_session. destruct (key_of_id id (sessions l)); simpl; lia.
+    - unfold Listener.l_close_begin. destruct (key_of_id id (sessions l)) as [[a e]|]; simpl; try lia.
+      destruct (e_dead e); simpl; lia.
+    - unfold Listener.l_close_end. destruct (pending_addr id (pending l)); simpl; lia.
   Qed.
 
   Lemma new_accepts_ids : forall (l : listener) ev x,
       In x (new_accepts l ev) -> snd x = next_id l /\ next_id (step l ev) = next_id l + 1.
   Proof.
-    intros l [raw a| |id|] x; try (simpl; contradiction).
+    intros l [raw a| |id|id|] x; try (simpl; contradiction).
     rewrite new_accepts_spec. destruct (step_accepts l raw a) as [_ H].
     destruct (creation_event l raw a); simpl; try contradiction.
     intros [Hx|[]]. subst. simpl. split; auto.
@@ -437,7 +543,7 @@ Section Proofs.
       apply created_ids_lower in Hz2.
       assert (Hx : In x (new_accepts l ev)) by (rewrite E; simpl; auto).
       apply new_accepts_ids in Hx. lia.
-    - exfalso. destruct ev as [raw a| | |]; try (simpl in E; discriminate).
+    - exfalso. destruct ev as [raw a| | | |]; try (simpl in E; discriminate).
       rewrite new_accepts_spec in E.
       destruct (creation_event l raw a); discriminate.
   Qed.
@@ -460,7 +566,6 @@ Section Proofs.
     apply in_map_iff in H2. destruct H2 as [x [Hx1 Hx2]]. apply created_ids_lower in Hx2. lia.
   Qed.
 
-
   (* ---------------------------------------------------------------------------------- *)
   (* A datagram of another conversation is never merged.                                 *)
 
@@ -469,25 +574,38 @@ Section Proofs.
       lookup a (sessions l) = Some e ->
       parse_conv data = HConv conv sn -> conv <> sess_conv (e_sess e) ->
       let l' := l_packet_input l raw a in
+      (* not the first packet of a conversation: ignored *)
       (sn <> 0 /\ l' = l) \/
-      (sn = 0 /\ backlog_full l = true /\ l' = close_at l a /\ lookup a (sessions l') = None) \/
+      (* first packet, no room in the backlog: the old session is closed (unless an
+         application Close of it is already under way), nothing is created *)
+      (sn = 0 /\ backlog_full l = true /\ l' = reset_close l a e /\
+       (e_dead e = false -> lookup a (sessions l') = None)) \/
+      (* first packet, room: replaced by a fresh session fed with this datagram only *)
       (sn = 0 /\ backlog_full l = false /\
-       lookup a (sessions l') = Some (mkE (next_id l) (sess_input (sess_new conv a) data)) /\
+       lookup a (sessions l') = Some (mkE (next_id l) false (sess_input (sess_new conv a) data)) /\
        accepts l' = accepts l ++ [(a, next_id l)] /\
        others a (sessions l') = others a (sessions l)).
   Proof.
     intros l raw a e data conv sn Hg Hs He Hp Hc l'. subst l'.
     pose proof (frame_others l raw a) as Hfr. revert Hfr.
+    assert (Hw : sn = 0 -> wants_session l raw a = Some (conv, data)).
+    { intro. unfold Listener.wants_session. rewrite Hg, Hs, Hp, He.
+      apply Z.eqb_neq in Hc. rewrite Hc. subst. auto. }
     unfold Listener.l_packet_input. rewrite Hg, Hs, Hp, He.
     apply Z.eqb_neq in Hc. rewrite Hc.
     destruct (sn =? 0) eqn:Esn; simpl.
-    - apply Z.eqb_eq in Esn. intro Hfr. right.
-      unfold Listener.create. rewrite backlog_full_close_at.
+    - apply Z.eqb_eq in Esn. intro Hfr. right. specialize (Hw Esn).
+      assert (Hbf : backlog_full (reset_close l a e) = backlog_full l).
+      { unfold Listener.reset_close. destruct (e_dead e); auto. }
       destruct (backlog_full l) eqn:Hb.
-      + left. repeat split; auto. simpl. apply (lookup_remove_same addr_eqb).
-      + right. revert Hfr. unfold Listener.create. rewrite backlog_full_close_at, Hb. simpl.
-        intro Hfr. repeat split; auto.
-        apply (lookup_set_same addr_eqb addr_eqb_spec).
+      + left. unfold Listener.create. rewrite Hbf. repeat split; auto.
+        intro Hd. unfold Listener.reset_close. rewrite Hd. simpl.
+        apply (lookup_remove_same addr_eqb).
+      + right. pose proof (creation_installs l raw a conv data Hw Hb) as Hi.
+        destruct (step_accepts l raw a) as [Ha _].
+        unfold Listener.creation_event in Ha. rewrite Hw, Hb in Ha. simpl in Ha.
+        revert Hi Ha. unfold Listener.l_packet_input. rewrite Hg, Hs, Hp, He, Hc, Esn. simpl.
+        intros Hi Ha. repeat split; auto.
     - apply Z.eqb_neq in Esn. auto.
   Qed.
 
@@ -498,7 +616,7 @@ Section Proofs.
       lookup a (sessions l) = Some e -> parse_conv data = HNoConv ->
       let l' := l_packet_input l raw a in
       l' = feed l a e data /\
-      lookup a (sessions l') = Some (mkE (e_id e) (sess_input (e_sess e) data)) /\
+      lookup a (sessions l') = Some (mkE (e_id e) (e_dead e) (sess_input (e_sess e) data)) /\
       accepts l' = accepts l /\
       (* whatever the session-level input does not change is not changed by the listener *)
       (forall (T : Type) (obs : sess -> T),
@@ -508,7 +626,7 @@ Section Proofs.
   Proof.
     intros l raw a e data Hg Hs He Hp l'. subst l'.
     unfold Listener.l_packet_input. rewrite Hg, Hs, Hp, He.
-    assert (Hl : lookup a (sessions (feed l a e data)) = Some (mkE (e_id e) (sess_input (e_sess e) data))).
+    assert (Hl : lookup a (sessions (feed l a e data)) = Some (mkE (e_id e) (e_dead e) (sess_input (e_sess e) data))).
     { simpl. eapply (lookup_replace_same addr_eqb); eauto. }
     repeat split; auto.
     intros T obs Hobs. rewrite Hl. simpl. rewrite Hobs. auto.
@@ -534,13 +652,107 @@ Section Proofs.
       let l' := l_packet_input l raw a in
       creation_event l raw a = true /\
       accepts l' = accepts l ++ [(a, next_id l)] /\
-      lookup a (sessions l') = Some (mkE (next_id l) (sess_input (sess_new conv a) data)).
+      lookup a (sessions l') = Some (mkE (next_id l) false (sess_input (sess_new conv a) data)).
   Proof.
     intros l raw a conv data Hw Hb l'. subst l'.
     destruct (step_accepts l raw a) as [Ha _].
     assert (Hc : creation_event l raw a = true).
     { unfold Listener.creation_event. rewrite Hw, Hb. auto. }
     rewrite Hc in Ha. repeat split; auto. apply creation_installs; auto.
+  Qed.
+
+  (* ---------------------------------------------------------------------------------- *)
+  (* A session leaves the table only through its own Close or through a datagram from its  *)
+  (* own address that starts a new conversation (the repaired removeSession).              *)
+
+  Lemma lookup_remove_some : forall a k (t : list (addr * entry)) e,
+      lookup a (remove_key addr_eqb k t) = Some e -> lookup a t = Some e.
+  Proof.
+    intros a k t e H. destruct (addr_eqb a k) eqn:E.
+    - apply addr_eqb_spec in E. subst. rewrite (lookup_remove_same addr_eqb) in H. discriminate.
+    - rewrite remove_is_others, (lookup_others addr_eqb addr_eqb_spec) in H; auto.
+      intro. subst. rewrite eqb_refl in E. discriminate.
+  Qed.
+
+  Lemma lookup_remove_other : forall a k (t : list (addr * entry)),
+      a <> k -> lookup a (remove_key addr_eqb k t) = lookup a t.
+  Proof. intros. rewrite remove_is_others. apply (lookup_others addr_eqb addr_eqb_spec). auto. Qed.
+
+  Lemma lookup_replace_other : forall a k v (t : list (addr * entry)),
+      a <> k -> lookup a (replace_key addr_eqb k v t) = lookup a t.
+  Proof.
+    intros. apply (others_lookup addr_eqb addr_eqb_spec k); auto. apply others_replace.
+  Qed.
+
+  Definition same_session (x y : option entry) : Prop :=
+    match x, y with
+    | Some e, Some e' => e_id e' = e_id e
+    | _, _ => False
+    end.
+
+  Theorem removal_only_by_own_close_or_reset : forall (l : listener) ev a e,
+      inv l -> lookup a (sessions l) = Some e ->
+      same_session (Some e) (lookup a (sessions (step l ev))) \/
+      ev = EvCloseEnd (e_id e) \/
+      (exists raw conv data, ev = EvPacket raw a /\ wants_session l raw a = Some (conv, data)).
+  Proof.
+    intros l ev a e Hi He. destruct ev as [raw b| |id|id|]; simpl.
+    - destruct (addr_eqb b a) eqn:Eab.
+      + apply addr_eqb_spec in Eab. subst b. rewrite packet_input_spec.
+        destruct (wants_session l raw a) as [[conv data]|] eqn:W.
+        * right. right. exists raw, conv, data. auto.
+        * left. destruct (fed_to l raw a) as [[e1 data]|] eqn:F.
+          { pose proof (fed_to_lookup _ _ _ _ _ F) as H1. rewrite He in H1. inversion H1; subst e1.
+            simpl. rewrite (lookup_replace_same addr_eqb a _ _ e He). simpl. auto. }
+          { rewrite He. simpl. auto. }
+      + left. rewrite frame_lookup, He. simpl. auto.
+        intro. subst. rewrite eqb_refl in Eab. discriminate.
+    - left. unfold l_accept. destruct (accepts l); simpl; rewrite He; simpl; auto.
+    - left. unfold Listener.l_close_begin.
+      destruct (key_of_id id (sessions l)) as [[k x]|] eqn:K; [|rewrite He; simpl; auto].
+      destruct (e_dead x); [rewrite He; simpl; auto|]. simpl.
+      apply key_of_id_lookup in K; [|apply (inv_keys l Hi)]. destruct K as [Hk Hid].
+      destruct (addr_eqb a k) eqn:Eak.
+      * apply addr_eqb_spec in Eak. subst k. rewrite He in Hk. inversion Hk; subst x.
+        rewrite (lookup_replace_same addr_eqb a _ _ e He). simpl. auto.
+      * rewrite lookup_replace_other, He; [simpl; auto|].
+        intro. subst. rewrite eqb_refl in Eak. discriminate.
+    - unfold Listener.l_close_end.
+      destruct (pending_addr id (pending l)) as [k|]; [|left; rewrite He; simpl; auto]. simpl.
+      destruct (addr_eqb a k) eqn:Eak.
+      * apply addr_eqb_spec in Eak. subst k. rewrite He.
+        destruct (e_id e =? id) eqn:E.
+        { right. left. apply Z.eqb_eq in E. subst. auto. }
+        { left. rewrite He. simpl. auto. }
+      * assert (Hne : a <> k) by (intro; subst; rewrite eqb_refl in Eak; discriminate).
+        left. destruct (lookup k (sessions l)) as [x|]; [|rewrite He; simpl; auto].
+        destruct (e_id x =? id); [rewrite lookup_remove_other by auto|]; rewrite He; simpl; auto.
+    - left. rewrite He. simpl. auto.
+  Qed.
+
+  (* history form: a session that is never the target of a Close and whose address never
+     starts a new conversation is in the table after any history, whatever else happens *)
+  Definition no_reset_at (a : addr) (l : listener) (evs : list event) : Prop :=
+    forall pre raw post, evs = pre ++ EvPacket raw a :: post -> wants_session (run l pre) raw a = None.
+
+  Theorem live_session_stays_reachable : forall evs (l : listener) a e,
+      inv l -> lookup a (sessions l) = Some e ->
+      ~ In (EvCloseEnd (e_id e)) evs -> no_reset_at a l evs ->
+      same_session (Some e) (lookup a (sessions (run l evs))).
+  Proof.
+    induction evs as [|ev r IH]; intros l a e Hi He Hc Hr.
+    - simpl. rewrite He. simpl. auto.
+    - simpl. destruct (removal_only_by_own_close_or_reset l ev a e Hi He) as [H|[H|H]].
+      + destruct (lookup a (sessions (step l ev))) as [e'|] eqn:E'; simpl in H; try contradiction.
+        assert (Hx : same_session (Some e') (lookup a (sessions (run (step l ev) r)))).
+        { apply IH; auto.
+          - apply inv_step; auto.
+          - rewrite H. intro Hin. apply Hc. right. auto.
+          - intros pre raw post Heq. apply (Hr (ev :: pre) raw post). simpl. rewrite Heq. auto. }
+        destruct (lookup a (sessions (run (step l ev) r))); simpl in *; try contradiction. congruence.
+      + exfalso. apply Hc. left. auto.
+      + destruct H as [raw [conv [data [H1 H2]]]]. subst ev.
+        pose proof (Hr [] raw r eq_refl) as H3. simpl in H3. rewrite H3 in H2. discriminate.
   Qed.
 
   (* ---------------------------------------------------------------------------------- *)
@@ -553,53 +765,45 @@ Section Proofs.
     Lemma conv_fold : forall ds s, sess_conv (fold_left sess_input ds s) = sess_conv s.
     Proof. induction ds; simpl; intros; auto. rewrite IHds. auto. Qed.
 
-    (* the session e found under a after the history evs from l0, of conversation c, is
-       either a session of l0 fed with exactly its share of evs, or was created by one event
-       of evs and has been fed with exactly its share of the events after that one *)
-    Definition hist (l0 : listener) (evs : list event) (a : addr) (e : entry) (c : Z) : Prop :=
-      (exists e0, lookup a (sessions l0) = Some e0 /\ e_id e = e_id e0 /\
+    (* the session (identity i, state s) found under a after the history evs from l0, of
+       conversation c, is either a session of l0 fed with exactly its share of evs, or was
+       created by one event of evs and has been fed with exactly its share of the events
+       after that one *)
+    Definition hist (l0 : listener) (evs : list event) (a : addr) (i : Z) (s : sess) (c : Z) : Prop :=
+      (exists e0, lookup a (sessions l0) = Some e0 /\ i = e_id e0 /\
                   c = sess_conv (e_sess e0) /\
-                  e_sess e = fold_left sess_input (fed_seq a c evs) (e_sess e0))
+                  s = fold_left sess_input (fed_seq a c evs) (e_sess e0))
       \/
       (exists pre raw post data,
           evs = pre ++ EvPacket raw a :: post /\
           wants_session (run l0 pre) raw a = Some (c, data) /\
           backlog_full (run l0 pre) = false /\
-          e_id e = next_id (run l0 pre) /\
-          e_sess e = fold_left sess_input (fed_seq a c post) (sess_input (sess_new c a) data)).
+          i = next_id (run l0 pre) /\
+          s = fold_left sess_input (fed_seq a c post) (sess_input (sess_new c a) data)).
 
-    Lemma hist_conv : forall l0 evs a e c, hist l0 evs a e c -> sess_conv (e_sess e) = c.
+    Lemma hist_conv : forall l0 evs a i s c, hist l0 evs a i s c -> sess_conv s = c.
     Proof.
-      intros l0 evs a e c [[e0 [_ [_ [Hc H]]]]|[pre [raw [post [data [_ [_ [_ [_ H]]]]]]]]];
+      intros l0 evs a i s c [[e0 [_ [_ [Hc H]]]]|[pre [raw [post [data [_ [_ [_ [_ H]]]]]]]]];
         rewrite H, conv_fold; auto. rewrite conv_input. auto.
     Qed.
 
     Lemma fed_seq_snoc : forall a c evs ev, fed_seq a c (evs ++ [ev]) = fed_seq a c evs ++ fed_by a c ev.
     Proof. intros. unfold Listener.fed_seq. rewrite flat_map_app. simpl. rewrite app_nil_r. auto. Qed.
 
-    Lemma hist_extend : forall l0 evs a e c ev,
-        hist l0 evs a e c ->
-        hist l0 (evs ++ [ev]) a (mkE (e_id e) (fold_left sess_input (fed_by a c ev) (e_sess e))) c.
+    Lemma hist_extend : forall l0 evs a i s c ev,
+        hist l0 evs a i s c ->
+        hist l0 (evs ++ [ev]) a i (fold_left sess_input (fed_by a c ev) s) c.
     Proof.
-      intros l0 evs a e c ev [[e0 [H1 [H2 [H3 H4]]]]|[pre [raw [post [data [H1 [H2 [H3 [H4 H5]]]]]]]]].
-      - left. exists e0. simpl. repeat split; auto.
+      intros l0 evs a i s c ev [[e0 [H1 [H2 [H3 H4]]]]|[pre [raw [post [data [H1 [H2 [H3 [H4 H5]]]]]]]]].
+      - left. exists e0. repeat split; auto.
         rewrite fed_seq_snoc, fold_left_app, <- H4. auto.
-      - right. exists pre, raw, (post ++ [ev]), data. simpl. repeat split; auto.
+      - right. exists pre, raw, (post ++ [ev]), data. repeat split; auto.
         + rewrite H1, <- app_assoc. auto.
         + rewrite fed_seq_snoc, fold_left_app, <- H5. auto.
     Qed.
 
     Lemma run_snoc : forall (l : listener) evs ev, run l (evs ++ [ev]) = step (run l evs) ev.
     Proof. intros. unfold Listener.run. rewrite fold_left_app. auto. Qed.
-
-    Lemma lookup_remove_some : forall a k (t : list (addr * entry)) e,
-        lookup a (remove_key addr_eqb k t) = Some e -> lookup a t = Some e.
-    Proof.
-      intros a k t e H. destruct (addr_eqb a k) eqn:E.
-      - apply addr_eqb_spec in E. subst. rewrite (lookup_remove_same addr_eqb) in H. discriminate.
-      - rewrite remove_is_others, (lookup_others addr_eqb addr_eqb_spec) in H; auto.
-        intro. subst. rewrite eqb_refl in E. discriminate.
-    Qed.
 
     Lemma fed_to_inv : forall (l : listener) raw a e data,
         fed_to l raw a = Some (e, data) ->
@@ -623,48 +827,72 @@ Section Proofs.
     Qed.
 
     Theorem stream_isolation : forall evs (l0 : listener) a e,
-        lookup a (sessions (run l0 evs)) = Some e -> exists c, hist l0 evs a e c.
+        inv l0 -> lookup a (sessions (run l0 evs)) = Some e ->
+        exists c, hist l0 evs a (e_id e) (e_sess e) c.
     Proof.
-      induction evs as [|ev evs IH] using rev_ind; intros l0 a e He.
+      induction evs as [|ev evs IH] using rev_ind; intros l0 a e Hi0 He.
       - simpl in He. exists (sess_conv (e_sess e)). left. exists e. simpl. auto.
       - rewrite run_snoc in He. set (l := run l0 evs) in *.
-        assert (Hsame : forall e1 c, hist l0 evs a e1 c -> fed_by a c ev = [] -> e = e1 ->
-                                     exists c, hist l0 (evs ++ [ev]) a e c).
-        { intros e1 c Hh Hf Heq. subst e1. exists c.
-          pose proof (hist_extend l0 evs a e c ev Hh) as Hx. rewrite Hf in Hx. simpl in Hx.
-          destruct e. exact Hx. }
-        destruct ev as [raw b| |id|].
+        assert (Hil : inv l) by (apply inv_run; auto).
+        (* the entry before the step had the same identity and state, and ev feeds it nothing *)
+        assert (Hsame : forall e1, lookup a (sessions l) = Some e1 ->
+                                   e_id e = e_id e1 -> e_sess e = e_sess e1 ->
+                                   (forall c, sess_conv (e_sess e1) = c -> fed_by a c ev = []) ->
+                                   exists c, hist l0 (evs ++ [ev]) a (e_id e) (e_sess e) c).
+        { intros e1 H1 Hid Hs Hf. destruct (IH l0 a e1 Hi0 H1) as [c Hh]. exists c.
+          pose proof (hist_extend l0 evs a _ _ c ev Hh) as Hx.
+          rewrite (Hf c (hist_conv _ _ _ _ _ _ Hh)) in Hx. simpl in Hx. rewrite Hid, Hs. exact Hx. }
+        destruct ev as [raw b| |id|id|].
         + destruct (addr_eqb b a) eqn:Eab.
           * apply addr_eqb_spec in Eab. subst b. simpl in He. rewrite packet_input_spec in He.
             destruct (wants_session l raw a) as [[conv data]|] eqn:W.
-            { unfold Listener.create in He. rewrite backlog_full_close_at in He.
-              destruct (backlog_full l) eqn:Hb.
-              - simpl in He. rewrite (lookup_remove_same addr_eqb) in He. discriminate.
-              - simpl in He. rewrite (lookup_set_same addr_eqb addr_eqb_spec) in He.
-                inversion He; subst e. exists conv. right.
-                exists evs, raw, [], data. simpl. repeat split; auto. }
+            { destruct (backlog_full l) eqn:Hb.
+              - unfold Listener.create in He. rewrite backlog_full_reset_at, Hb in He.
+                (* nothing is created; what is under a afterwards was there before (a session
+                   of another conversation whose Close is under way): it is fed nothing *)
+                assert (Hf0 : fed_to l raw a = None) by (eapply wants_fed_exclusive; eauto).
+                unfold reset_at, Listener.reset_close in He.
+                destruct (lookup a (sessions l)) as [e1|] eqn:E1.
+                + destruct (e_dead e1).
+                  * rewrite E1 in He. inversion He; subst e1. apply (Hsame e); auto.
+                    intros c Hc. subst c. eapply fed_by_not_fed; eauto.
+                  * simpl in He. rewrite (lookup_remove_same addr_eqb) in He. discriminate.
+                + rewrite E1 in He. discriminate.
+              - rewrite sessions_create in He by (rewrite backlog_full_reset_at; auto).
+                rewrite (lookup_set_same addr_eqb addr_eqb_spec) in He.
+                inversion He; subst e. simpl. destruct (reset_at_fields l a) as [_ [Hn _]]. rewrite Hn.
+                exists conv. right. exists evs, raw, [], data. simpl. repeat split; auto. }
             { destruct (fed_to l raw a) as [[e1 data]|] eqn:F.
               - apply fed_to_inv in F. destruct F as [Hg [Hs [He1 Hf]]].
                 simpl in He. erewrite (lookup_replace_same addr_eqb) in He; eauto.
-                inversion He; subst e.
-                destruct (IH l0 a e1 He1) as [c Hh].
-                pose proof (hist_conv _ _ _ _ _ Hh) as Hc. subst c.
+                inversion He; subst e. simpl.
+                destruct (IH l0 a e1 Hi0 He1) as [c Hh].
+                pose proof (hist_conv _ _ _ _ _ _ Hh) as Hc. subst c.
                 exists (sess_conv (e_sess e1)).
-                pose proof (hist_extend l0 evs a e1 _ (EvPacket raw a) Hh) as Hx.
+                pose proof (hist_extend l0 evs a _ _ _ (EvPacket raw a) Hh) as Hx.
                 simpl in Hx. rewrite eqb_refl, Hg, Hs, Hf in Hx. simpl in Hx. exact Hx.
-              - destruct (IH l0 a e He) as [c Hh]. eapply Hsame; eauto.
-                rewrite <- (hist_conv _ _ _ _ _ Hh). eapply fed_by_not_fed; eauto. }
+              - apply (Hsame e); auto. intros c Hc. subst c. eapply fed_by_not_fed; eauto. }
           * assert (Hne : a <> b) by (intro; subst; rewrite eqb_refl in Eab; discriminate).
             simpl in He. rewrite frame_lookup in He by auto.
-            destruct (IH l0 a e He) as [c Hh]. eapply Hsame; eauto. simpl. rewrite Eab. auto.
-        + assert (He' : lookup a (sessions l) = Some e).
-          { revert He. simpl. unfold l_accept. destruct (accepts l); auto. }
-          destruct (IH l0 a e He') as [c Hh]. eapply Hsame; eauto.
-        + assert (He' : lookup a (sessions l) = Some e).
-          { revert He. simpl. unfold Listener.l_close_session.
-            destruct (key_of_id id (sessions l)); auto. simpl. apply lookup_remove_some. }
-          destruct (IH l0 a e He') as [c Hh]. eapply Hsame; eauto.
-        + destruct (IH l0 a e He) as [c Hh]. eapply Hsame; eauto.
+            apply (Hsame e); auto. intros. simpl. rewrite Eab. auto.
+        + apply (Hsame e); auto.
+          revert He. simpl. unfold l_accept. destruct (accepts l); auto.
+        + revert He. simpl. unfold Listener.l_close_begin.
+          destruct (key_of_id id (sessions l)) as [[k x]|] eqn:K; [|intro; apply (Hsame e); auto].
+          destruct (e_dead x); [intro; apply (Hsame e); auto|]. simpl.
+          apply key_of_id_lookup in K; [|apply (inv_keys l Hil)]. destruct K as [Hk Hid].
+          destruct (addr_eqb a k) eqn:Eak.
+          * apply addr_eqb_spec in Eak. subst k.
+            erewrite (lookup_replace_same addr_eqb); eauto. intro He. inversion He; subst e. simpl.
+            apply (Hsame x); auto.
+          * rewrite lookup_replace_other by (intro; subst; rewrite eqb_refl in Eak; discriminate).
+            intro; apply (Hsame e); auto.
+        + revert He. simpl. unfold Listener.l_close_end.
+          destruct (pending_addr id (pending l)) as [k|]; [|intro; apply (Hsame e); auto]. simpl.
+          destruct (lookup k (sessions l)) as [x|]; [|intro; apply (Hsame e); auto].
+          destruct (e_id x =? id); [|intro; apply (Hsame e); auto].
+          intro He. apply lookup_remove_some in He. apply (Hsame e); auto.
+        + apply (Hsame e); auto.
     Qed.
 
     (* the instance the property speaks about: a listener that starts empty *)
@@ -678,11 +906,30 @@ Section Proofs.
           sess_conv (e_sess e) = c /\
           e_sess e = fold_left sess_input (fed_seq a c post) (sess_input (sess_new c a) data).
     Proof.
-      intros evs a e He. destruct (stream_isolation evs l_empty a e He) as [c Hh].
-      pose proof (hist_conv _ _ _ _ _ Hh) as Hc.
+      intros evs a e He. destruct (stream_isolation evs l_empty a e inv_empty He) as [c Hh].
+      pose proof (hist_conv _ _ _ _ _ _ Hh) as Hc.
       destruct Hh as [[e0 [H1 _]]|[pre [raw [post [data [H1 [H2 [H3 [H4 H5]]]]]]]]].
       - simpl in H1. discriminate.
       - exists c, pre, raw, post, data. repeat split; auto.
+    Qed.
+
+    (* while a session of conversation c lives at a - not closed by the application, its
+       address not starting another conversation - no datagram of conversation c from a
+       creates a second session, whatever else happens on the listener *)
+    Theorem one_session_per_conversation : forall evs (l : listener) a e raw c d,
+        inv l -> lookup a (sessions l) = Some e ->
+        ~ In (EvCloseEnd (e_id e)) evs -> no_reset_at a l evs ->
+        wants_session (run l evs) raw a = Some (c, d) -> c <> sess_conv (e_sess e).
+    Proof.
+      intros evs l a e raw c d Hi He Hc Hr Hw.
+      pose proof (live_session_stays_reachable evs l a e Hi He Hc Hr) as Hs.
+      destruct (lookup a (sessions (run l evs))) as [e'|] eqn:E'; simpl in Hs; try contradiction.
+      pose proof (live_session_same_conv_no_creation _ _ _ _ _ _ E' Hw) as Hne.
+      destruct (stream_isolation evs l a e' Hi E') as [c' Hh].
+      pose proof (hist_conv _ _ _ _ _ _ Hh) as Hc'.
+      destruct Hh as [[e0 [H1 [_ [H3 _]]]]|[pre [raw' [post [data [H1 [H2 _]]]]]]].
+      - rewrite He in H1. inversion H1; subst e0. congruence.
+      - rewrite (Hr pre raw' post H1) in H2. discriminate.
     Qed.
   End Isolation.
 
